@@ -107,7 +107,8 @@ def run_cases(cases, res):
         try:
             if c['route'] == 'ctor_like':
                 # sizes and modes from a template, scale and bias given explicitly
-                tmpl = fx.Fxp(None, c['s'], c['nw'], c['nf'], rounding=c['r'], overflow=c['o'])
+                # (the template carries a scaling of its own when the case says so: the explicit scale= / bias= override it, zero and one included)
+                tmpl = fx.Fxp(None, c['s'], c['nw'], c['nf'], rounding=c['r'], overflow=c['o'], **({'scale': 0.5, 'bias': 3.0} if (len(c['vs']) + c['nw']) % 2 else {}))
                 x = fx.Fxp(val, like=tmpl, scale=kw['scale'], bias=kw['bias'])
             elif c['route'] == 'ctor': x = fx.Fxp(val, c['s'], c['nw'], c['nf'], **kw)
             else:
